@@ -3,12 +3,31 @@ import re
 from ..build import AnalysisBroken
 from ..interp import Obj, View, Interp, Sym
 from ..chibi import CG, Trace, linearise
-from ..lib_abi import Builder, SCALARS, STRUCTS, GP_REGS, N_SSE, classify, assign_args, size_of, bytes_of, shift_addr
+from ..lib_abi import Builder, SCALARS, STRUCTS, GP_REGS, N_SSE, classify, assign_args, size_of, bytes_of, shift_addr, eightbyte_classes, CLASS_ONLY, NESTED, describe
 from ..x86 import Machine, Unknown, lo, ext, C
 from .c01 import wrap
 
 U = 'codegen.c'
 TEST_TYPES = ['int', 'char', 'long', 'ptr', 'float', 'double', 'ldouble'] + sorted(STRUCTS)
+
+
+class Aborts(Unknown):
+    """the code generator, interpreted on a concrete (fully determined) call / function / return statement of a valid program, ends in
+    error() / a failed assertion on every path: compiling such a program kills the compiler. A verdict, not an analysis failure"""
+
+
+def _one_return(res, what):
+    rets = [(c, o) for c, o in res if o[0] == 'ret']
+    if not rets and res and all(o[0] == 'noreturn' for c, o in res):
+        o = res[0][1]
+        raise Aborts('%s ends in %s(%s) on every path' % (what, o[1], ', '.join(repr(a) for a in (o[2] if len(o) > 2 and isinstance(o[2], (list, tuple)) else [])[:3] if isinstance(a, (str, int)))))
+    if len(rets) != 1:
+        raise Unknown('%s has %d returning paths (%r)' % (what, len(rets), [o[:2] for c, o in res][:3]))
+    return rets
+
+
+def aborts(rep, rule, key, e, what, where):
+    rep.ob(rule, key + ':code-generator-aborts', False, 'the code generator does not survive %s: %s - a valid program with such a type cannot be compiled' % (what, e), where=where)
 
 
 def child_term(name, t):
@@ -48,9 +67,7 @@ def run_caller(cg, B, types, ret='int', depth0=0, entry='gen_expr'):
         ctx.root = n
         return [n]
     res = it.explore(entry, mk)
-    rets = [(ctx, out) for ctx, out in res if out[0] == 'ret']
-    if len(rets) != 1:
-        raise Unknown(entry + '(ND_FUNCALL) on a concrete call has %d returning paths (%r)' % (len(rets), [o[:2] for c, o in res][:3]))
+    rets = _one_return(res, entry + '(ND_FUNCALL) on a concrete call')
     ctx = rets[0][0]
     tr = Trace(ctx)
     nodes = linearise(tr)
@@ -173,12 +190,14 @@ def r_caller(cg, B, rep, tier):
                 for depth0 in (0, 1):
                     if depth0 == 1 and not (k == ks[-1] or l == ls[-1]):
                         continue
-                    if t.startswith('u_') and (k, l) != (0, 0):
-                        continue        # the union shapes decide the class merge of overlapping members; register exhaustion is covered by the struct shapes
+                    if (t.startswith('u_') or t in CLASS_ONLY) and (k, l) != (0, 0):
+                        continue        # the union / nested / padding shapes decide the classification of one aggregate; register exhaustion is covered by the flat struct shapes
                     types = ['long'] * k + ['double'] * l + [t, 'int', 'double']
                     key = '%s:ND_FUNCALL:%s-after-%dgp-%dsse/depth%d' % (U, t, k, l, depth0)
                     try:
                         ctx, tr, s = run_caller(cg, B, types, 'int', depth0)
+                    except Aborts as e:
+                        aborts(rep, 'R06.2', key, e, 'a call with an argument of type %s' % describe(t), where); continue
                     except Unknown as e:
                         rep.undecided('R06.2', key, str(e), where=where); continue
                     check_call(rep, types, 'int', depth0, ctx, tr, s, key, where)
@@ -233,9 +252,7 @@ def run_callee(cg, B, types, variadic=False, ret='int', extra_locals=()):
         box.update(fn=fn, params=params, va=va, ab=ab)
         return fn
     res = it.explore('assign_lvar_offsets', lambda ctx: [build(ctx)])
-    rets = [(c, o) for c, o in res if o[0] == 'ret']
-    if len(rets) != 1:
-        raise Unknown('assign_lvar_offsets has %d returning paths on a concrete function' % len(rets))
+    rets = _one_return(res, 'assign_lvar_offsets on a concrete function')
     fn = box['fn']; params = box['params']
     offsets = [p.fields.get('offset') for p in params]
     stack_size = fn.fields.get('stack_size')
@@ -246,9 +263,7 @@ def run_callee(cg, B, types, variadic=False, ret='int', extra_locals=()):
     it2.global_init['depth'] = 0
     it2.global_init['current_fn'] = 0
     res2 = it2.explore('emit_text', lambda ctx: [fn])
-    rets2 = [(c, o) for c, o in res2 if o[0] == 'ret']
-    if len(rets2) != 1:
-        raise Unknown('emit_text has %d returning paths on a concrete function (%r)' % (len(rets2), [o[:3] for c, o in res2][:2]))
+    rets2 = _one_return(res2, 'emit_text on a concrete function')
     tr = Trace(rets2[0][0])
     nodes = linearise(tr)
 
@@ -317,12 +332,14 @@ def r_callee(cg, B, rep, tier):
     for t in TEST_TYPES:
         for k in ks:
             for l in ls:
-                if t.startswith('u_') and (k, l) != (0, 0):
+                if (t.startswith('u_') or t in CLASS_ONLY) and (k, l) != (0, 0):
                     continue
                 types = ['long'] * k + ['double'] * l + [t, 'int', 'double']
                 key = '%s:emit_text:%s-after-%dgp-%dsse' % (U, t, k, l)
                 try:
                     box, offsets, stack_size, tr, s = run_callee(cg, B, types)
+                except Aborts as e:
+                    aborts(rep, 'R06.7', key, e, 'a function with a parameter of type %s' % describe(t), where); continue
                 except Unknown as e:
                     rep.undecided('R06.7', key, str(e), where=where); continue
                 check_callee(rep, types, box, offsets, stack_size, tr, s, key, where)
@@ -334,8 +351,8 @@ RET_GP = ['rax', 'rdx']
 
 def ret_locs(t):
     """psABI return location of each eightbyte of type t: [('gp', i)|('sse', i)] or 'MEMORY'"""
-    if t in STRUCTS and size_of(t) == 16 and [m for m, o in STRUCTS[t][2] if m != 'empty'] == ['ldouble']:
-        return 'X87'            # one long double: classes X87, X87UP -> returned in %st(0) (psABI 3.2.3 return rule 6)
+    if t in STRUCTS and eightbyte_classes(t) == ['X87', 'X87UP']:
+        return 'X87'            # one long double (directly, or behind member structs / arrays of length 1): classes X87, X87UP -> returned in %st(0) (psABI 3.2.3 return rule 6)
     c = classify(t)
     if c == ['MEMORY']:
         return 'MEMORY'
@@ -344,7 +361,7 @@ def ret_locs(t):
     for x in c:
         if x == 'INTEGER':
             out.append(('gp', gp)); gp += 1
-        else:
+        elif x == 'SSE':
             out.append(('sse', sse)); sse += 1
     return out
 
@@ -367,9 +384,7 @@ def run_return(cg, B, t):
         n.meta['root'] = True
         ctx.root = n
         return [n]
-    res = [(c, o) for c, o in it.explore('gen_stmt', mk) if o[0] == 'ret']
-    if len(res) != 1:
-        raise Unknown('gen_stmt(ND_RETURN) has %d returning paths' % len(res))
+    res = _one_return(it.explore('gen_stmt', mk), 'gen_stmt(ND_RETURN) of a concrete aggregate')
     tr = Trace(res[0][0])
     nodes = linearise(tr)
 
@@ -378,6 +393,43 @@ def run_return(cg, B, t):
         s_.reg['rax'] = ('r', 'val', 64)
     finals = Machine().run(nodes, lambda s_: None, pseudo)
     return tr, finals[0]
+
+
+def _returns_callee(cg, B, rep, t, sz, locs, where):
+    # ---- callee side: return statement
+    keyc = '%s:ND_RETURN:returns-%s' % (U, t)
+    try:
+        tr, s2 = run_return(cg, B, t)
+    except Aborts as e:
+        aborts(rep, 'R06.5', keyc, e, '`return v;` in a function returning %s' % describe(t), where); return
+    except Unknown as e:
+        rep.undecided('R06.5', keyc, str(e), where=where); return
+    facts = {'trace': tr.text()}
+    src = ('addr', ('r', 'val', 64), 0)
+    if locs == 'X87':
+        ok = s2.st == [('fmem', 80, src)] and not s2.stores
+        rep.ob('R06.5', keyc + ':callee-value-in-st0', ok, 'returning an aggregate that is one long double, the x87 stack holds %r at the epilogue; psABI: the value in %%st(0)' % (s2.st,), where=where, facts=facts)
+    elif locs == 'MEMORY':
+        dst = ('mem', 64, ('addr', ('init', 'rbp'), -8))
+        want = sorted(((('addr', dst, i), 8, ('mem', 8, shift_addr(src, i))) for i in range(sz)), key=repr)
+        got = sorted(((a, w, v) for a, w, v, k in s2.stores), key=repr)
+        rep.ob('R06.5', keyc + ':callee-copies-into-hidden-buffer', got == want, 'returning a %d-byte aggregate the callee stores %d bytes (%r...), expected a byte-for-byte copy into the buffer the hidden first parameter points to' % (sz, len(got), got[:1]), where=where, facts=facts)
+        rep.ob('R06.5', keyc + ':callee-returns-hidden-pointer-in-rax', s2.reg['rax'] == dst,
+               'after copying a MEMORY-class return value %%rax holds %r; psABI 3.2.3: %%rax must hold the address passed in by the caller (chibicc callers and others read the result through it)' % (s2.reg['rax'],), where=where, facts=facts)
+    else:
+        for k, (bank, idx) in enumerate(locs):
+            nb = min(8, sz - 8 * k)
+            want = [('mem', 8, shift_addr(src, 8 * k + j)) for j in range(nb)]
+            reg = s2.reg[RET_GP[idx]] if bank == 'gp' else s2.xmm.get(idx)
+            got = bytes_of(reg, nb) if reg is not None else None
+            rep.ob('R06.5', keyc + ':callee-eightbyte%d-in-%s' % (k, RET_GP[idx] if bank == 'gp' else 'xmm%d' % idx), got == want,
+                   'eightbyte %d of a returned %s must be in %s; it holds %r' % (k, t, ('%' + RET_GP[idx]) if bank == 'gp' else '%%xmm%d' % idx, reg), where=where, facts=facts)
+            # no read beyond the object
+            if bank == 'sse' and reg is not None:
+                wide = bytes_of(reg, 8)
+                over = [b for b in wide[nb:] if b is not None and b[0] == 'mem']
+                rep.ob('R06.5', keyc + ':callee-eightbyte%d-reads-within-object' % k, not over, 'loading eightbyte %d of a %d-byte aggregate reads %d byte(s) beyond the object' % (k, sz, len(over)), where=where, facts=facts)
+    rep.ob('R06.5', keyc + ':jumps-to-epilogue', any(e[0] == 'jump_out' and e[1].startswith('.L.return.') for e in s2.events), 'a return statement does not jump to the function epilogue', where=where, facts=facts)
 
 
 def r_returns(cg, B, rep):
@@ -391,8 +443,12 @@ def r_returns(cg, B, rep):
         key = '%s:ND_FUNCALL:returns-%s' % (U, t)
         try:
             ctx, tr, s = run_caller(cg, B, ['int'], t, 0)
+        except Aborts as e:
+            aborts(rep, 'R06.5', key, e, 'a call of a function returning %s' % describe(t), where); ctx = None
         except Unknown as e:
             rep.undecided('R06.5', key, str(e), where=where); continue
+        if ctx is None:
+            _returns_callee(cg, B, rep, t, sz, locs, where); continue
         facts = {'trace': tr.text()}
         ncall = 1
         st_after = [x for x in s.stores if x[0][0] == 'addr' and x[0][1] == ('init', 'rbp')]
@@ -422,38 +478,7 @@ def r_returns(cg, B, rep):
             out = sorted(o for o in mem if not (-64 <= o < -64 + sz))
             rep.ob('R06.5', key + ':caller-writes-only-the-result-object', not out, 'receiving a returned %s (%d bytes) the caller also writes bytes at offsets %r of its frame: a neighbouring object or the saved frame pointer is overwritten' % (t, sz, out[:6]), where=where, facts=facts)
             rep.ob('R06.5', key + ':caller-result-address', s.reg['rax'] == ('addrof', 64, ('addr', ('init', 'rbp'), -64)), 'the value of the call expression is %r, expected the address of the result object' % (s.reg['rax'],), where=where, facts=facts)
-        # ---- callee side: return statement
-        keyc = '%s:ND_RETURN:returns-%s' % (U, t)
-        try:
-            tr, s2 = run_return(cg, B, t)
-        except Unknown as e:
-            rep.undecided('R06.5', keyc, str(e), where=where); continue
-        facts = {'trace': tr.text()}
-        src = ('addr', ('r', 'val', 64), 0)
-        if locs == 'X87':
-            ok = s2.st == [('fmem', 80, src)] and not s2.stores
-            rep.ob('R06.5', keyc + ':callee-value-in-st0', ok, 'returning an aggregate that is one long double, the x87 stack holds %r at the epilogue; psABI: the value in %%st(0)' % (s2.st,), where=where, facts=facts)
-        elif locs == 'MEMORY':
-            dst = ('mem', 64, ('addr', ('init', 'rbp'), -8))
-            want = sorted(((('addr', dst, i), 8, ('mem', 8, shift_addr(src, i))) for i in range(sz)), key=repr)
-            got = sorted(((a, w, v) for a, w, v, k in s2.stores), key=repr)
-            rep.ob('R06.5', keyc + ':callee-copies-into-hidden-buffer', got == want, 'returning a %d-byte aggregate the callee stores %d bytes (%r...), expected a byte-for-byte copy into the buffer the hidden first parameter points to' % (sz, len(got), got[:1]), where=where, facts=facts)
-            rep.ob('R06.5', keyc + ':callee-returns-hidden-pointer-in-rax', s2.reg['rax'] == dst,
-                   'after copying a MEMORY-class return value %%rax holds %r; psABI 3.2.3: %%rax must hold the address passed in by the caller (chibicc callers and others read the result through it)' % (s2.reg['rax'],), where=where, facts=facts)
-        else:
-            for k, (bank, idx) in enumerate(locs):
-                nb = min(8, sz - 8 * k)
-                want = [('mem', 8, shift_addr(src, 8 * k + j)) for j in range(nb)]
-                reg = s2.reg[RET_GP[idx]] if bank == 'gp' else s2.xmm.get(idx)
-                got = bytes_of(reg, nb) if reg is not None else None
-                rep.ob('R06.5', keyc + ':callee-eightbyte%d-in-%s' % (k, RET_GP[idx] if bank == 'gp' else 'xmm%d' % idx), got == want,
-                       'eightbyte %d of a returned %s must be in %s; it holds %r' % (k, t, ('%' + RET_GP[idx]) if bank == 'gp' else '%%xmm%d' % idx, reg), where=where, facts=facts)
-                # no read beyond the object
-                if bank == 'sse' and reg is not None:
-                    wide = bytes_of(reg, 8)
-                    over = [b for b in wide[nb:] if b is not None and b[0] == 'mem']
-                    rep.ob('R06.5', keyc + ':callee-eightbyte%d-reads-within-object' % k, not over, 'loading eightbyte %d of a %d-byte aggregate reads %d byte(s) beyond the object' % (k, sz, len(over)), where=where, facts=facts)
-        rep.ob('R06.5', keyc + ':jumps-to-epilogue', any(e[0] == 'jump_out' and e[1].startswith('.L.return.') for e in s2.events), 'a return statement does not jump to the function epilogue', where=where, facts=facts)
+        _returns_callee(cg, B, rep, t, sz, locs, where)
     # narrow scalar returns
     for t, w, kind in (('bool', 8, 'zx'), ('char', 8, 'sx'), ('uchar', 8, 'zx'), ('short', 16, 'sx')):
         key = '%s:ND_FUNCALL:returns-%s' % (U, t)
@@ -464,6 +489,21 @@ def r_returns(cg, B, rep):
         got = lo(32, s.reg['rax'])
         want = ext(kind, w, 32, lo(w, ('ret', 'rax', 1)))
         rep.ob('R01.7', key, got == want, 'a %s returned by a call is used as %r; the upper bits of %%eax are undefined on return, the caller must re-extend: %r' % (t, got, want), where=where, facts={'trace': tr.text()})
+
+
+def const_off(v):
+    """c for a value rbp + c"""
+    if isinstance(v, tuple) and v[0] == 'bin' and v[1] == 'add':
+        a, b = v[3], v[4]
+        if b == ('init', 'rsp') and a[0] == 'c':
+            return a[1]
+        if a == ('init', 'rsp') and b[0] == 'c':
+            return b[1]
+    if isinstance(v, tuple) and v[0] == 'addrof' and isinstance(v[2], tuple) and v[2][0] == 'addr' and v[2][1] == ('init', 'rsp') and isinstance(v[2][2], int):
+        return v[2][2]
+    if v == ('init', 'rsp'):
+        return 0
+    return None
 
 
 def r_variadic(cg, B, rep, P):
@@ -501,7 +541,7 @@ def r_variadic(cg, B, rep, P):
     rep.ob('R06.4', key + ':fp_offset-base', base_ok and s1 is not None, 'fp_offset is initialised to %r for %r: not 48 + stride x named SSE arguments' % (list(fps.values()), list(fps)), where=where)
     m = m1
     ov = m.get((8, 64)); rs = m.get((16, 64))
-    rep.ob('R06.4', key + ':overflow_arg_area', ov == ('bin', 'add', 64, ('c', 16), ('init', 'rsp')) or ov == ('bin', 'add', 64, ('init', 'rsp'), ('c', 16)), 'overflow_arg_area is %r, expected 16(%%rbp) (the first stack argument)' % (ov,), where=where)
+    rep.ob('R06.4', key + ':overflow_arg_area', const_off(ov) == 16, 'overflow_arg_area is %r, expected 16(%%rbp) (the first stack argument)' % (ov,), where=where)
     regs = [m.get((24 + 8 * i, 64)) for i in range(6)]
     rep.ob('R06.4', key + ':gp-save-order', regs == [('init', r) for r in GP_REGS], 'the INTEGER save area holds %r, expected rdi, rsi, rdx, rcx, r8, r9 at 8-byte steps from reg_save_area' % (regs,), where=where)
     xoffs = sorted(off for (off, w), v in m.items() if isinstance(v, tuple) and v[0] == 'fval' and isinstance(v[2], tuple) and v[2][0] == 'xinit')
@@ -530,6 +570,60 @@ def r_variadic(cg, B, rep, P):
            'SSE registers are saved %r bytes apart and va_arg advances by %r; psABI 3.5.7: 16-byte slots (fp_offset 48..176). A va_list made here and walked by libc (vprintf with two or more doubles), or made by another compiler and walked here, reads the wrong registers' % (s2, s3), where=where)
 
 
+VA_NAMED = [['long'] * 6, ['long'] * 7, ['long'] * 8 + ['int'], ['double'] * 8, ['double'] * 9, ['ldouble'], ['int', 'ldouble', 'double'], ['s_ll'], ['s_dd'], ['s_ld'], ['s_dl', 'int'],
+            ['s_i', 's_f'], ['s_l3', 'int'], ['long'] * 5 + ['s_ll'], ['double'] * 7 + ['s_dd', 'double'], ['s_L', 'int'], ['long'] * 7 + ['ldouble']]
+
+
+def r_variadic_named(cg, B, rep):
+    """va_start must describe the state after the NAMED parameters as a psABI caller passed them (3.5.7): gp_offset / fp_offset count the
+    registers the named parameters occupy - per eightbyte class, an aggregate takes one register per eightbyte, a long double and a MEMORY
+    class aggregate none - and overflow_arg_area points behind the named parameters that were passed in memory (registers exhausted, long
+    double, large aggregates). The prologue is interpreted on a concrete variadic function per signature and compared with assign_args"""
+    rep.rule('R06.11', 'va_start: for every class of named parameter (INTEGER / SSE scalars beyond the registers, long double, one- and two-eightbyte aggregates of each class mix, MEMORY aggregates) gp_offset and fp_offset count the registers the named parameters occupy and overflow_arg_area is 16(%rbp) + the bytes of the named parameters passed in memory', floor=40)
+    where = '%s:%d' % (U, cg.cu.fn('emit_text').line)
+
+    for named in VA_NAMED:
+        # compact, stable signature name: runs of one type are written type*n
+        parts = []
+        for t in named:
+            if parts and parts[-1][0] == t:
+                parts[-1][1] += 1
+            else:
+                parts.append([t, 1])
+        sig = ','.join(t if n == 1 else '%s*%d' % (t, n) for t, n in parts)
+        key = '%s:emit_text:va_start-after-named(%s)' % (U, sig)
+        try:
+            box, offsets, stack_size, tr, s = run_callee(cg, B, named, variadic=True)
+        except Aborts as e:
+            aborts(rep, 'R06.11', key, e, 'a variadic function with the named parameters (%s)' % sig, where); continue
+        except Unknown as e:
+            rep.undecided('R06.11', key, str(e), where=where); continue
+        va = box['va'].fields.get('offset')
+        pro = [e for e in s.events if e[0] == 'body-starts']
+        if len(pro) != 1 or not isinstance(va, int):
+            rep.undecided('R06.11', key, 'prologue / va_area offset not found', where=where); continue
+        mem = {}
+        for addr, w, val, kind in pro[0][1]:
+            if addr[0] == 'addr' and addr[1] == ('init', 'rsp') and isinstance(addr[2], int):
+                mem[(addr[2] - va, w)] = val
+        locs, ngp, nsse, membytes = assign_args(named)
+        g = mem.get((0, 32)); f = mem.get((4, 32)); ov = const_off(mem.get((8, 64)))
+        g = g[1] if isinstance(g, tuple) and g[0] == 'c' else None
+        f = f[1] if isinstance(f, tuple) and f[0] == 'c' else None
+        if g is None or f is None or ov is None:
+            rep.undecided('R06.11', key, 'the va_list fields are not initialised with constants / %%rbp + constant (%r, %r, %r)' % (mem.get((0, 32)), mem.get((4, 32)), mem.get((8, 64))), where=where); continue
+        facts = {'named': named, 'psabi': {'gp': ngp, 'sse': nsse, 'mem': membytes}}
+        gp_in_mem = any(locs[i][0] == 'mem' and 'INTEGER' in classify(t) for i, t in enumerate(named))
+        fp_in_mem = any(locs[i][0] == 'mem' and 'SSE' in classify(t) for i, t in enumerate(named))
+        # once the registers of a kind are exhausted any value at or above the limit sends every walker to the overflow area
+        ok_g = g == 8 * ngp or (gp_in_mem and ngp == 6 and g >= 48 and g % 8 == 0 and g <= 48 + 8 * len(named))
+        ok_f = f == 48 + 16 * nsse or (fp_in_mem and nsse == N_SSE and f >= 176 and f % 16 == 0 and f <= 176 + 16 * len(named))
+        rep.ob('R06.11', key + ':gp_offset', ok_g, 'after the named parameters (%s) a psABI caller has used %d general-purpose registers; va_start sets gp_offset to %d (psABI: %d): va_arg of the first unnamed INTEGER argument reads the save slot of another register' % (sig, ngp, g, 8 * ngp), where=where, facts=facts)
+        rep.ob('R06.11', key + ':fp_offset', ok_f, 'after the named parameters (%s) a psABI caller has used %d vector registers; va_start sets fp_offset to %d (psABI: %d): va_arg of the first unnamed double reads the save slot of another register' % (sig, nsse, f, 48 + 16 * nsse), where=where, facts=facts)
+        want_ov = 16 + (membytes + 7) // 8 * 8
+        rep.ob('R06.11', key + ':overflow_arg_area', ov == want_ov, 'the named parameters (%s) occupy %d bytes of the memory argument area; va_start sets overflow_arg_area to %d(%%rbp) (psABI: %d(%%rbp)): va_arg of an unnamed argument passed in memory yields a named parameter or skips arguments' % (sig, membytes, ov, want_ov), where=where, facts=facts)
+
+
 def r_reg_class(P, B, rep):
     """va_arg picks its walker from __builtin_reg_class(type): 0 = fetched from the INTEGER part of the save area, 1 = from the SSE part,
     2 = from the overflow area. primary() is interpreted on the builtin for every scalar type and for the struct vocabulary and the answer is
@@ -545,6 +639,8 @@ def r_reg_class(P, B, rep):
         cls = classify(tn)
         if tn.startswith('u_'):
             tag = 'union-%s-%s' % (tn, '-'.join(cls))
+        elif tn in CLASS_ONLY:
+            tag = 'struct-%s-%s' % (tn, '-'.join(cls))
         elif tn in STRUCTS:
             tag = 'struct-' + '-'.join(cls)
         else:
@@ -561,7 +657,7 @@ def r_reg_class(P, B, rep):
         def m_new_num(it, ctx, n, a):
             ctx.emit('num', a[0]); return Obj('Node', lazy=True, label='num')
         it = Interp(P, pu, {'models': {'equal': m_equal, 'typename': m_typename, 'skip': lambda it, ctx, n, a: Obj('Token', lazy=True, label='after'), 'new_num': m_new_num,
-                                       'consume': lambda *a: 0}, 'opaque': ['error_tok']})
+                                       'consume': lambda *a: 0}, 'opaque': ['error_tok'], 'rec_limit': 64})   # has_flonum / has_ldouble recurse over concrete nested types
 
         def mk(ctx):
             ctx.tok0 = Obj('Token', lazy=True, label='tok0')
@@ -579,7 +675,7 @@ def r_reg_class(P, B, rep):
         if isinstance(bad, str) and bad.startswith('undecided:'):
             rep.undecided('R06.4', 'parse.c:primary:reg-class/%s' % tag, bad[10:], where=where); continue
         rep.ob('R06.4', 'parse.c:primary:reg-class/%s' % tag, bad is None,
-               'va_arg(ap, %s) with __builtin_reg_class = %r: %s (the caller passes the type as %s; psABI 3.5.7)' % (tn if tn not in STRUCTS else '%s{%s}' % ('union' if tn.startswith('u_') else 'struct', ','.join(t for t, o in STRUCTS[tn][2])), got, bad, '/'.join(cls)), where=where)
+               'va_arg(ap, %s) with __builtin_reg_class = %r: %s (the caller passes the type as %s; psABI 3.5.7)' % (describe(tn), got, bad, '/'.join(cls)), where=where)
     if seen < 12:
         rep.undecided('R06.4', 'parse.c:primary:reg-class', 'only %d types could be evaluated' % seen, where=where)
 
@@ -634,6 +730,9 @@ def _va_arg_end_to_end(P, tn, cls, klass):
                     want = []
                     g, f = gp, fp
                     for k, c in enumerate(cls):
+                        if c == 'NO_CLASS':
+                            want += [None] * min(8, size - 8 * k)      # padding: no register, any bytes
+                            continue
                         src = R + (g if c == 'INTEGER' else f)
                         if c == 'INTEGER':
                             g += 8
@@ -648,7 +747,7 @@ def _va_arg_end_to_end(P, tn, cls, klass):
                 if not (isinstance(res, tuple) and res[0] == 'lvalue'):
                     return 'undecided:va_arg does not evaluate to an object (%r)' % (res,)
                 x = res[1]
-                got_bytes = [ev.load_byte(x, i) for i in range(size)]
+                got_bytes = [ev.load_byte(x, i) if want[i] is not None else None for i in range(size)]
                 if got_bytes != want or st != want_st:
                     d = ', '.join('%s %#x (psABI %#x)' % (k, st[k], want_st[k]) for k in st if st[k] != want_st[k])
                     where_ = ('the register save area' if not (in_mem or gp + 8 * ngp > 48 or fp + 16 * nfp > 176) else 'the overflow area')
@@ -723,6 +822,95 @@ def r_va_walkers(P, rep):
         rep.ob('R06.4', key, bad is None, msg if bad else '', where=where, facts={'states': n})
 
 
+def r_helper_calls(cg, B, rep):
+    """psABI 3.2.2: %rsp is 16-byte aligned at EVERY call instruction, also at the calls to run-time helpers the code generator emits by
+    itself (the TLS descriptor call of -fpic code). Expressions are evaluated with `depth` 8-byte temporaries pushed, so a call emitted by
+    gen_addr / gen_expr must be aligned at both parities of `depth`. Every instruction template that is a call is either the indirect call
+    of ND_FUNCALL (R06.3) or must be reached by one of the explorations here (census), else the rule is undecided"""
+    from ..chibi import parse_ins, stack_effect
+    rep.rule('R06.12', 'every call instruction the code generator emits on its own (run-time helpers such as __tls_get_addr) is made with %rsp 16-byte aligned whatever the number of temporaries the enclosing expression has pushed', floor=2)
+    cu = cg.cu
+    sites = {}
+    for fname, fd in cu.functions.items():
+        for c in fd.calls('println'):
+            fmt = c.args()[0].str_value() if c.args() else None
+            if not fmt:
+                continue
+            ins = parse_ins(fmt.replace('%%', '%'))
+            if ins and ins[0] in ('call', 'callq'):
+                sites.setdefault((fname, ins[1][0] if ins[1] else '?'), c.line)
+    seen = set()
+    where = '%s:%d' % (U, cu.fn('gen_addr').line if cu.fn('gen_addr') else 0)
+    for fpic in (0, 1):
+        for tls in (0, 1):
+            for depth0 in (0, 1):
+                it = cg.interp()
+                it.global_init['depth'] = depth0
+                it.global_init['opt_fpic'] = fpic
+
+                def mk(ctx, it=it, tls=tls):
+                    it.ctx = ctx
+                    v = Obj('Obj', lazy=False, label='gv')
+                    v.fields.update({'name': 'gv', 'is_local': 0, 'is_tls': tls, 'ty': B.ty(it, 'int'), 'is_function': 0})
+                    n = Obj('Node', lazy=False, label='var')
+                    n.fields.update({'kind': B.E['ND_VAR'], 'var': v, 'ty': B.ty(it, 'int'), 'tok': Obj('Token', lazy=True, label='tok')})
+                    n.meta['root'] = True
+                    ctx.root = n
+                    return [n]
+                key = '%s:gen_addr:global%s%s' % (U, '-tls' if tls else '', '-fpic' if fpic else '')
+                try:
+                    rets = _one_return(it.explore('gen_addr', mk), 'gen_addr of a global variable')
+                except Unknown as e:
+                    rep.undecided('R06.12', key, str(e), where=where); continue
+                lines = Trace(rets[0][0]).asm()
+                delta = 0
+                for l in lines:
+                    ins = parse_ins(l)
+                    if ins and ins[0] in ('call', 'callq'):
+                        tgt = ins[1][0] if ins[1] else '?'
+                        seen.add(('gen_addr', tgt))
+                        ok = delta is not None and (8 * depth0 - delta) % 16 == 0
+                        rep.ob('R06.12', key + ':call-%s/depth%d' % (tgt.split('@')[0], depth0), ok,
+                               '`call %s` is emitted with %d 8-byte temporaries of the enclosing expression on the stack and %s bytes pushed by the sequence itself: %%rsp is not 16-byte aligned at the call (psABI 3.2.2); e.g. `tv + x` pushes x before the address of the thread-local tv is taken' % (tgt, depth0, -delta if delta is not None else 'an unknown number of'),
+                               where=where, facts={'trace': lines})
+                    r, x, known = stack_effect(l)
+                    if delta is not None:
+                        delta = delta + r if isinstance(r, int) else None
+    for (fname, tgt), line in sorted(sites.items()):
+        if tgt.startswith('*') and fname == 'gen_expr':
+            continue            # the call of ND_FUNCALL: R06.3
+        if (fname, tgt) not in seen:
+            rep.undecided('R06.12', '%s:%s:call-%s' % (U, fname, tgt.split('@')[0]), 'an instruction template `call %s` is emitted by %s and is reached by none of the explored shapes: its stack alignment is not decided' % (tgt, fname), where='%s:%d' % (U, line))
+
+
+C_KEYWORDS = set('auto break case char const continue default do double else enum extern float for goto if inline int long register restrict return short signed sizeof static struct switch typedef union unsigned void volatile while typeof __typeof__ asm'.split())
+
+
+def r_header_hygiene(P, rep):
+    """C11 7.1.3 / 7.16: va_start, va_arg, va_copy, va_end expand in the user's scope with the user's expressions as operands. An identifier
+    of the user's name space in a macro body - declared there (it captures the same name inside the operands: `va_list klass; va_arg(klass, int)`)
+    or referenced there (it depends on what the user declared) - changes the meaning of a conforming variadic function. Besides the macro's
+    parameters and keywords only reserved identifiers (__x, _X) may occur"""
+    from ..lib_minic import parse_macros, NotInSubset
+    rep.rule('R06.13', 'the va_* macros of include/stdarg.h use, besides their parameters and keywords, only reserved identifiers: nothing they declare can capture a name in the user\'s operands', floor=3)
+    where = 'include/stdarg.h'
+    try:
+        macros = parse_macros(open(P.header('include/stdarg.h')).read())
+    except NotInSubset as e:
+        rep.undecided('R06.13', 'include/stdarg.h:macros', 'the header is outside the evaluated C subset: %s' % e, where=where); return
+    for name in ('va_start', 'va_arg', 'va_copy', 'va_end'):
+        if name not in macros or macros[name][0] is None:
+            rep.undecided('R06.13', 'include/stdarg.h:%s' % name, '%s is not a function-like macro of the header' % name, where=where); continue
+        params, body = macros[name]
+        bad = sorted({t[1] for t in body if t[0] == 'id' and t[1] not in params and t[1] not in C_KEYWORDS
+                      and not (t[1].startswith('__') or (t[1].startswith('_') and t[1][1:2].isupper()))})
+        if not bad:
+            rep.ob('R06.13', 'include/stdarg.h:%s:only-reserved-identifiers' % name, True, '', where=where)
+        for ident in bad:
+            rep.ob('R06.13', 'include/stdarg.h:%s:non-reserved-identifier/%s' % (name, ident), False,
+                   '%s uses the identifier `%s` of the user\'s name space: an operand that mentions the same name (`va_list %s; %s(%s, ...)`) is captured by / collides with the macro\'s own use' % (name, ident, ident, name, ident), where=where)
+
+
 def r_callee_saved(P, rep):
     rep.rule('R06.8', 'no emitted instruction writes a callee-saved register (rbx, r12-r15); rbp/rsp are written only by the prologue/epilogue/alloca idioms', floor=1)
     cu = P.unit('codegen.c')
@@ -767,11 +955,12 @@ def run(P, rep, tier):
     rep.explanation = ('The calling convention is decided over the domain the property quantifies over: argument class (INTEGER, SSE, X87, MEMORY, every mixed two-eightbyte aggregate shape) x '
                        'position relative to register exhaustion (0..7 INTEGER, 0..9 SSE registers already used) x stack parity. For each cell the code generator is interpreted on a concrete call node, '
                        'the emitted sequence is evaluated by the term machine up to the call instruction, and the location of every argument byte is compared with an independent psABI 3.2.3 oracle.')
-    rep.assumptions += ['psABI x86-64 1.0 section 3.2.3 as transcribed in sa/lib_abi.py', 'gen_expr of each argument satisfies its contract', 'aggregate shapes: the 19 struct layouts of sa/lib_abi.py STRUCTS']
+    rep.assumptions += ['psABI x86-64 1.0 section 3.2.3 as transcribed in sa/lib_abi.py', 'gen_expr of each argument satisfies its contract', 'aggregate shapes: the flat, nested (member structs, arrays, arrays of structs, multi-dimensional arrays), union, padding-eightbyte and packed layouts of sa/lib_abi.py STRUCTS']
     r_caller(cg, B, rep, tier)
     r_callee(cg, B, rep, tier)
     r_returns(cg, B, rep)
     r_variadic(cg, B, rep, P)
+    r_variadic_named(cg, B, rep)
     r_va_walkers(P, rep)
     r_reg_class(P, B, rep)
     # psABI 3.2.1: the x87 control word is callee-saved. The only code that changes it is the long double -> integer conversion family.
@@ -783,6 +972,8 @@ def run(P, rep, tier):
     c01.r015(cg, sub, 'fp')
     reissue(rep, 'R06.9', sub, 'a caller\'s rounding mode would be changed by the call: ', keep=lambda o: ':cast:ldouble->' in o['key'])
     r_callee_saved(P, rep)
+    r_helper_calls(cg, B, rep)
+    r_header_hygiene(P, rep)
     # C11 6.5.2.2p7 / psABI: the callee reads a parameter in the representation of the PARAMETER type, so the caller must have converted the
     # argument (a char passed for a _Bool must arrive as 0/1, a float passed to `...` as a double): lib_exprparse's funcall rules, re-used
     from ..lib_exprparse import r_conversion_sites
